@@ -200,10 +200,14 @@ pub fn run(ctx: &Ctx) -> Outcome {
                         toy::log_take().iter().map(|c| (c.dir, c.entry)).collect()
                     })
                     .collect();
-                rep.case(|| {
-                    ensure!(shapes.iter().all(|s| *s == shapes[0]), format!("call_shape_depends_on_data/{}", fam), "{}: the sequence of backend calls (direction, entry kind) differs between data patterns", dec.ty);
-                    Ok(())
-                });
+                // Not a claim of the property (which speaks about the keystream VALUES): an assumption behind exploring three
+                // data patterns per shape.  If the sequence of backend calls ever depends on the data, say so in the evidence
+                // instead of raising an alarm.
+                rep.cases += 1;
+                if !shapes.iter().all(|s| *s == shapes[0]) {
+                    rep.count("call_shape_depends_on_data", 1);
+                    rep.notes.push(format!("{} {}: the sequence of backend calls (direction, entry kind) differs between data patterns: the data-oblivious-control-flow assumption does not hold for this type", cfg.name, dec.ty));
+                }
             }
         }
         rep.count("coincidences_counted_not_asserted", coincidences);
@@ -211,7 +215,7 @@ pub fn run(ctx: &Ctx) -> Outcome {
         rep.finish()
     });
     let mut o = merge(reports);
-    o.rule = "stateless exhaustive: mode x configuration x IV x data x n units (blocks; bytes for CFB-8 and the stream modes) x call schedule (one call in place; one call b2b; one unit then the rest; two units b2b then the rest; empty calls before and between) x position j x difference delta (every single-bit flip of the unit for units <= 8 bytes, else bits {0,1,7,8,mid,last-1,last}, a full byte, a full unit); oracle: dec(c xor delta@j) equals the reference exactly AND the difference to dec(c) has the prescribed support (CBC: block j changed, block j+1 = delta, rest equal; CFB: block j = delta, block j+1 changed, rest equal; CFB-8: byte j = delta, changes confined to the next bs bytes; CTR/OFB/BelT: only delta at j; PCBC/IGE: block j changed, later blocks as the reference predicts); causality for both directions; stream modes: output xor input and end state identical for every ordered pair of data patterns; backend call shapes identical across data patterns. Non-zero claims only where bijectivity guarantees them".into();
+    o.rule = "stateless exhaustive: mode x configuration x IV x data x n units (blocks; bytes for CFB-8 and the stream modes) x call schedule (one call in place; one call b2b; one unit then the rest; two units b2b then the rest; empty calls before and between) x position j x difference delta (every single-bit flip of the unit for units <= 8 bytes, else bits {0,1,7,8,mid,last-1,last}, a full byte, a full unit); oracle: dec(c xor delta@j) equals the reference exactly AND the difference to dec(c) has the prescribed support (CBC: block j changed, block j+1 = delta, rest equal; CFB: block j = delta, block j+1 changed, rest equal; CFB-8: byte j = delta, changes confined to the next bs bytes; CTR/OFB/BelT: only delta at j; PCBC/IGE: block j changed, later blocks as the reference predicts); causality for both directions; stream modes: output xor input and end state identical for every ordered pair of data patterns; backend call shapes across data patterns are recorded (an assumption monitor, not a verdict). Non-zero claims only where bijectivity guarantees them".into();
     o.configs = cfgs.iter().map(|c| c.name.clone()).collect();
     o.bounds = vec![("blocks".into(), J::Int(tier.pick(6, 9))), ("bytes_for_byte_modes".into(), J::Str(tier.pick("min(2*bs+3, 40)", "min(3*bs+3, 80)").into()))];
     o
